@@ -171,6 +171,61 @@ func factsDeterminism() {
 			}
 		}
 	}
+	// in-memory containers held by keepers: fields of a struct named Keeper whose type can hold data that is not in the
+	// store — maps, slices, channels, sync primitives, pointers to structs of the module's own packages that are
+	// not keepers themselves
+	var memFields [][2]string
+	for _, p := range pkgs {
+		if p.Types == nil {
+			continue
+		}
+		obj := p.Types.Scope().Lookup("Keeper")
+		tn, ok := obj.(*types.TypeName)
+		if !ok {
+			continue
+		}
+		st, ok := tn.Type().Underlying().(*types.Struct)
+		if !ok {
+			continue
+		}
+		rel := strings.TrimPrefix(p.PkgPath, "github.com/haqq-network/haqq/")
+		for i := 0; i < st.NumFields(); i++ {
+			f := st.Field(i)
+			kind := ""
+			switch u := f.Type().Underlying().(type) {
+			case *types.Map:
+				kind = "map"
+			case *types.Slice:
+				if b, ok := u.Elem().Underlying().(*types.Basic); !ok || b.Kind() != types.Uint8 {
+					kind = "slice" // (byte strings such as an authority address are values, not containers)
+				}
+			case *types.Chan:
+				kind = "chan"
+			case *types.Pointer:
+				if n, ok := u.Elem().(*types.Named); ok {
+					if _, isStruct := n.Underlying().(*types.Struct); isStruct && n.Obj().Pkg() != nil {
+						pp := n.Obj().Pkg().Path()
+						switch {
+						case pp == "sync" || pp == "sync/atomic":
+							kind = "sync"
+						case strings.HasPrefix(pp, "github.com/haqq-network/haqq/") && !strings.HasSuffix(n.Obj().Name(), "Keeper"):
+							kind = "ptr"
+						}
+					}
+				}
+			case *types.Struct:
+				if n, ok := f.Type().(*types.Named); ok && n.Obj().Pkg() != nil && (n.Obj().Pkg().Path() == "sync" || n.Obj().Pkg().Path() == "sync/atomic") {
+					kind = "sync"
+				}
+			}
+			if kind != "" {
+				memFields = append(memFields, [2]string{rel + "::Keeper." + f.Name(), kind})
+			}
+		}
+	}
+	sort.Slice(memFields, func(i, j int) bool { return memFields[i][0] < memFields[j][0] })
+	emitPairs("keeperMemFields", memFields, "every field of a struct named Keeper (consensus packages) that can hold data outside the store: package::Keeper.field → map | slice | chan | sync | ptr (pointer to a non-keeper struct of this repository)")
+
 	// bank-keeper methods called from Haqq's own packages (by the type of the receiver expression)
 	bankMethods := map[string]bool{}
 	for _, p := range pkgs {
